@@ -1971,6 +1971,7 @@ func (c *Client) doSetup(
 			}
 		}
 		udpRTPListener.readIP = remoteIP
+		udpRTPListener.readZone = c.nconn.RemoteAddr().(*net.TCPAddr).Zone
 
 		if serverPortsValid {
 			if !c.AnyPortEnable {
@@ -1983,6 +1984,7 @@ func (c *Client) doSetup(
 			}
 		}
 		udpRTCPListener.readIP = remoteIP
+		udpRTCPListener.readZone = c.nconn.RemoteAddr().(*net.TCPAddr).Zone
 
 	case ProtocolUDPMulticast:
 		if thRes.Delivery == nil || *thRes.Delivery != headers.TransportDeliveryMulticast {
